@@ -115,7 +115,7 @@ def natural_rows(x, window, L, S, D, style, kaldi, use_power):
     return np.sum(np.abs(X) ** (2 if use_power else 1), axis=1)
 
 
-def compare_features_per_frame(got, ref, use_log, nat_rows, energy_col=False, rtol=1e-9, afrac=1e-12):
+def compare_features_per_frame(got, ref, use_log, nat_rows, energy_col=False, rtol=1e-9, afrac=1e-12, floor=1e-300):
     """Every frame is judged at its own scale: |a-b| <= rtol*|b| + afrac*(all-pass coefficient of that frame);
     the energy coefficient (mean square of the frame) purely relatively."""
     got = np.asarray(got, dtype=np.float64)
@@ -131,9 +131,10 @@ def compare_features_per_frame(got, ref, use_log, nat_rows, energy_col=False, rt
             g, r = np.exp(got), np.exp(ref)
     else:
         g, r = got, ref
-    tol = rtol * np.abs(r) + afrac * np.asarray(nat_rows)[:, None] + 1e-300
+    # floor: values below the smallest normal number of the working precision carry no relative precision
+    tol = rtol * np.abs(r) + afrac * np.asarray(nat_rows)[:, None] + floor
     if energy_col:
-        tol[:, 0] = rtol * np.abs(r[:, 0]) + 1e-300
+        tol[:, 0] = rtol * np.abs(r[:, 0]) + floor
     bad = np.abs(g - r) > tol
     if np.any(bad):
         k, c = np.argwhere(bad)[0]
